@@ -100,6 +100,10 @@ def prepare(tier, scratch):
             for e in entries:
                 if e["skip"]:
                     continue
+                if e["thorough_only"] and tier != "thorough":
+                    if level == levels[0]:
+                        res.append(("skip", "%s.%s: deferred to the thorough tier (multiplier / divider / fp adder on both sides)" % (name, e["func"])))
+                    continue
                 defs = ["MIR_DIRECT_DISPATCH", 'C01_DUMP="%s"' % dump_h, 'E3_LIFTED="%s"' % lifted, 'C01_CASES="%s"' % cases_h]
                 if "buf_bytes" in g["opts"]:
                     defs.append("C01_BUF_BYTES=%d" % g["opts"]["buf_bytes"])
@@ -107,12 +111,14 @@ def prepare(tier, scratch):
                     defs.append("H_MAX_EXT_CALLS=%d" % g["opts"]["ext_calls"])
                 if "maxregs" in g["opts"]:
                     defs.append("H_MAXREGS=%d" % g["opts"]["maxregs"])
-                smt = e["heavy"] or e["fp"]
+                # mul/div on symbolic values: z3 (bit-vector); fp arithmetic: CaDiCaL (cbmc --fpa cannot be used: "flatten2bv of a
+                # non-constant FPA-encoded float is unsupported" as soon as a float lives in the interpreter's MIR_val_t union)
+                smt = e["heavy"] and not e["fp"]
                 res.append(("ob", Ob("%s.%s.O%d" % (name, e["func"], level), "C01/c01.c", defs=defs, entry=e["entry"],
                                      cc=["-I" + TOOLS, "-I" + os.path.join(VERIF, "harness/E3"), "-I" + os.path.join(VERIF, "harness/C01")],
                                      unwindset={"memcpy.0": big // 8 + 2, "memcpy.1": big + 2, "memcmp.0": big + 2, "memset.0": big + 2, "memset.1": 8 * big, "c01_bytes_diff.0": big + 2},
-                                     unwind=40, paths=True, object_bits=12, checks="functional", timeout=600,
-                                     solver="z3" if smt else None, flags=FS_FLAGS + (["--fpa"] if e["fp"] else []),
+                                     unwind=40, paths=True, object_bits=12, checks="functional", timeout=900 if (e["heavy"] or e["fp"]) else 400,
+                                     solver="z3" if smt else ("cadical" if e["fp"] else None), flags=FS_FLAGS,
                                      sample="%s at -O%d [%s]" % (e["sample"], level, g["source"]))))
         return res
 
